@@ -196,8 +196,9 @@ func TestDrv_C19(t *testing.T) {
 		tups := make([]KV, ntup)
 		sets = make([][2]string, ntup)
 		for k := range tups {
-			src := []string{"a.example:80", "10.0.0.1:443", "localhost:8080", "b.example:80"}[r.Intn(4)]
-			dst := []string{"127.0.0.1:6060", "localhost:6061", "10.9.8.7:1", "c.example:443"}[r.Intn(4)]
+			// addresses are taken as written (the dialer looks the URL's address up by exact match): letter case is kept
+			src := []string{"a.example:80", "10.0.0.1:443", "localhost:8080", "b.example:80", "LocalHost:8080", "API.Example:80"}[r.Intn(6)]
+			dst := []string{"127.0.0.1:6060", "localhost:6061", "10.9.8.7:1", "c.example:443", "Backend-1.example:443"}[r.Intn(5)]
 			tups[k] = KV{"src": src, "dst": dst}
 			sets[k] = [2]string{"connect-to", src + ":" + dst}
 		}
